@@ -34,6 +34,7 @@ func init() {
 	sim.RegisterKind("readfrom-lost", "C13")
 	sim.RegisterKind("readfrom-deadline", "C13")
 	sim.RegisterKind("readfrom-after-close", "C13")
+	sim.RegisterKind("client-api", "C13")
 	sim.RegisterKind("inbound-blocked", "C13", "C09")
 	sim.RegisterKind("payload-altered-by-client", "C13")
 }
@@ -452,8 +453,31 @@ func (x *c13) runUDP(tier string, caseNo int) {
 	x.settle()
 	x.checkWireLog()
 	x.drainAndCompare()
-	// Close: ReadFrom must fail afterwards, WriteTo too
+	// Close releases a reader that is blocked in ReadFrom - also when the socket toward the server
+	// has failed by then and the farewell Refresh cannot be written
+	x.setDeadline("SetReadDeadline", time.Time{})
+	released := make(chan error, 1)
+	go func() {
+		b := make([]byte, 100)
+		_, _, err := conn.ReadFrom(b)
+		released <- err
+	}()
+	time.Sleep(time.Millisecond)
+	deadSocket := rng.Intn(3) == 0
+	if deadSocket {
+		x.rc.Conn.SetWriteHook(func([]byte, net.Addr) (int, error, bool) { return 0, errors.New("injected: socket is gone"), true })
+	}
 	_ = conn.Close()
+	select {
+	case err := <-released:
+		if err == nil {
+			x.rec.Violate("readfrom-after-close", "blocked-reader-got-data", "a blocked ReadFrom returned data when the socket was closed")
+		}
+	case <-time.After(30 * time.Second):
+		x.rec.Violate("readfrom-after-close", "blocked-reader", "a ReadFrom blocked before Close was still blocked 30 s after Close (socket toward the server failing: %v)", deadSocket)
+	}
+	x.rc.Conn.SetWriteHook(nil)
+	x.rec.FP("close/releases-reader/dead-socket=%v", deadSocket)
 	buf := make([]byte, 100)
 	if !x.setDeadline("SetReadDeadline", time.Now().Add(time.Second)) {
 		return
@@ -466,6 +490,47 @@ func (x *c13) runUDP(tier string, caseNo int) {
 	}
 	x.conn = nil
 	x.rec.SetSample(map[string]any{"kind": "udp", "peers": npeers, "steps": steps, "perm_weights": x.ts.permW, "bind_weights": x.ts.bindW, "wire_events": len(x.srv.Log())})
+	if rng.Intn(2) == 0 && len(x.rec.Violations()) == 0 {
+		x.secondAllocation()
+	}
+}
+
+// secondAllocation: the same client allocates again after its first relayed socket was closed. The
+// new socket numbers its channels from the start, for other peers: inbound ChannelData must be
+// attributed by the new socket's bindings, nothing of the first allocation may shine through.
+func (x *c13) secondAllocation() {
+	x.ts.mu.Lock()
+	x.ts.permW, x.ts.bindW, x.ts.noSilence = [5]int{1, 0, 0, 0, 0}, [5]int{1, 0, 0, 0, 0}, true
+	x.ts.mu.Unlock()
+	conn, err := x.rc.Client.Allocate()
+	if err != nil {
+		x.rec.Violate("client-api", "second-allocate", "Allocate after Close of the first relayed socket failed: %v", err)
+
+		return
+	}
+	x.conn = conn
+	x.queue = nil
+	defer func() { _ = conn.Close(); x.conn = nil }()
+	// peers the first allocation never talked to
+	fresh := []*net.UDPAddr{{IP: net.IPv4(10, 3, 0, 1).To4(), Port: 9001}, {IP: net.IPv4(10, 3, 0, 2).To4(), Port: 9002}}
+	for i, p := range fresh {
+		if _, err := conn.WriteTo([]byte(fmt.Sprintf("second-%d", i)), p); err != nil {
+			return
+		}
+	}
+	time.Sleep(2 * time.Second) // bindings confirmed
+	bs, _, ok := x.hookBindings()
+	if !ok || len(bs) == 0 {
+		return
+	}
+	for _, b := range bs {
+		payload := []byte(fmt.Sprintf("via-0x%04x-from-%s", b.Number, b.Addr))
+		x.srv.Send(x.rc.Conn.Addr(), wire.EncodeChannelData(b.Number, payload, true), 0)
+		x.queue = append(x.queue, relayed{payload: payload, from: b.Addr})
+	}
+	x.settle()
+	x.drainAndCompare()
+	x.rec.FP("second-allocation/channels=%d", len(bs))
 }
 
 func errClass(err error) string {
